@@ -20,7 +20,8 @@ vars == <<l, nbad, hits>>
 
 HitNames == {"gaussian", "multinomial", "bernoulli", "categorical", "InvalidInput",
              "AlphaNot1", "UserPriors", "LabelsNotZeroBased", "Binarized", "EmptyClass", "Scaled",
-             "MapOk", "MapSkip", "MapOut", "GaussFamilyMap", "GaussZeroVar", "Model", "Drift"}
+             "MapOk", "MapSkip", "MapOut", "GaussFamilyMap", "GaussZeroVar", "Model", "Drift",
+             "ColScaled", "ZeroPrior", "ZeroPriorMapOk", "OtherBackend"}
 
 Count(mv, s) == Cardinality({i \in 1..Len(mv) : mv[i] = s})
 
@@ -37,6 +38,10 @@ Incs(e, v) ==
           [] h = "Binarized" -> IF e.variant = "bernoulli" /\ e.hasThr THEN 1 ELSE 0
           [] h = "EmptyClass" -> IF e.status = "ok" /\ \E c \in 1..Len(e.out.classCount) : e.out.classCount[c] = 0 THEN 1 ELSE 0
           [] h = "Scaled" -> IF e.e # 0 THEN 1 ELSE 0
+          [] h = "ColScaled" -> IF \E j \in 1..Len(e.ecol) : e.ecol[j] # e.ecol[1] THEN 1 ELSE 0
+          [] h = "ZeroPrior" -> IF e.hasPriors /\ \E c \in 1..Len(e.priorsNum) : e.priorsNum[c] = 0 THEN 1 ELSE 0
+          [] h = "ZeroPriorMapOk" -> IF e.hasPriors /\ \E c \in 1..Len(e.priorsNum) : e.priorsNum[c] = 0 THEN Count(mv, "ok") ELSE 0
+          [] h = "OtherBackend" -> IF e.backend # "dense" THEN 1 ELSE 0
           [] h = "MapOk" -> Count(mv, "ok")
           [] h = "MapSkip" -> Count(mv, "skip")
           [] h = "MapOut" -> Count(mv, "out")
